@@ -45,7 +45,8 @@ LEVEL_TEXT = ("Lean 4 theorems over an executable model of history.py: (a) FileH
               "interleaving in which no append_string overlaps a load, the consumer yields exactly the inline sequence "
               "and terminates (budget + no lost wake-up); the overlapping case is refuted on concrete schedules (known "
               "finding F5a-c); several simultaneous load() calls at per-event.set() granularity: safety for both "
-              "variants of the notify loop, no lost wake-up when it iterates over a copy, and a proved lost wake-up "
+              "variants of the notify loop, no lost wake-up and a termination bound when it iterates over a copy, and a "
+              "proved lost wake-up "
               "(F5d, fix proposed) for the live-list iteration of the current code. Tied to /repo on every run by a "
               "generated flag (behavioural probe of the notify loop), a differential correspondence (real files, every "
               "truncation offset, real threads under enforced schedules) and the property oracle")
@@ -94,9 +95,9 @@ ASSUMPTIONS = ["CPython: open(...,'ab').write appends contiguously; iteration ov
                "snapshot in one step (true for FileHistory and InMemoryHistory); a Python list iterator is an index "
                "into the live list"]
 PARTIAL_SCOPE = ["ThreadedHistory: real preemption inside a step and an inner history that reads lazily are not modelled",
-                 "several simultaneous load() calls: modelled without append_string; safety and no-lost-wake-up are "
-                 "proved, a termination bound only for the single-consumer system; a cancelled (aclose) load() is "
-                 "not modelled",
+                 "several simultaneous load() calls: modelled without append_string; no-lost-wake-up and the "
+                 "termination bound are proved for the notify loop over a copy (proposed fix), for the current "
+                 "live-list loop the lost wake-up is proved instead; a cancelled (aclose) load() is not modelled",
                  "entries appended while a load() is in progress: property is FALSE (F5, known findings) - theorems "
                  "cover exactly the schedules without such an overlap",
                  "concurrent writers from different processes (interleaved partial writes) not modelled",
